@@ -14,6 +14,8 @@ import EdzedModel.Gen.Constants
 import EdzedModel.Gen.Translated
 import EdzedModel.Gen.TranslatedFilters
 import EdzedProofs.EditLoops
+import EdzedModel.Gen.TranslatedFilterObjs
+import EdzedProofs.FiltersTie
 
 namespace Edzed.Filters
 
@@ -543,5 +545,187 @@ theorem translated_not_from_undef_is_model (d : Data) :
     Gen.Tr.notFromUndef d = Filters.notFromUndefPass d := by
   unfold Gen.Tr.notFromUndef Filters.notFromUndefPass
   cases d.get? "previous" <;> rfl
+
+
+/-! ### the filter OBJECTS (Gen/TranslatedFilterObjs.lean, tools/py2lean_filters.py) -/
+
+section FilterObjects
+open Filters
+
+/-- what `Edge.__init__` stores (`self._rise = bool(rise)` … `self._urise = bool(u_rise) if u_rise is not
+    None else self._rise` …), translated from the source, IS the model's `EdgeArgs.flags` -/
+theorem translated_filters_edge_init_is_model (a : EdgeArgs) :
+    Gen.TrFo.edgeInit a.rise a.fall a.uRise a.uFall = a.flags := by
+  cases a with
+  | mk r f ur uf => cases ur <;> rfl
+
+/-- the defaults of the constructor's signature ARE the defaults of the model's `EdgeArgs`; hence `Edge()`
+    with any subset of its arguments builds the model's filter -/
+theorem translated_filters_edge_defaults_is_model :
+    Gen.TrFo.edgeInitDefaults = ({} : EdgeArgs) ∧
+    ∀ a : EdgeArgs, Filter.edge (Gen.TrFo.edgeInit a.rise a.fall a.uRise a.uFall) = Filter.mkEdge a := by
+  refine ⟨rfl, fun a => ?_⟩
+  rw [translated_filters_edge_init_is_model]; rfl
+
+set_option linter.unusedSimpArgs false in
+/-- `Delta.__call__`, translated from the source (the item lookup, `self._last is UNDEF or
+    abs(self._last - value) >= self._delta`, the assignment of `_last` only when the value passes, the
+    TypeError of a non-number), IS the model's `deltaCall`: the same remembered value and the same result -/
+theorem translated_filters_delta_call_is_model (δ : Rat) (last : Val) (d : Data) :
+    Gen.TrFo.deltaCall δ last d = Filters.deltaCall δ last d := by
+  -- written to survive equivalent formulations of the method (inverted test with `<`, swapped operands)
+  unfold Gen.TrFo.deltaCall Filters.deltaCall
+  cases d.get? "value" with
+  | none => rfl
+  | some v =>
+    cases hu : last.isUndef
+    all_goals simp only [Bool.false_eq_true, Bool.not_false, Bool.not_true, if_true, if_false]
+    all_goals try rfl
+    rcases numOf? last with _ | l <;> rcases numOf? v with _ | q <;> try rfl
+    all_goals
+      simp only [c16_pyAbs_eq]
+      try simp only [c16_absQ_sub_comm q l]
+      first
+        | done
+        | (by_cases hc : δ ≤ absQ (l - q)
+           · have hn : ¬ absQ (l - q) < δ := Rat.not_lt.mpr hc
+             simp [hc, hn]
+           · have hp : absQ (l - q) < δ := Rat.not_le.mp hc
+             simp [hc, hp])
+
+/-- … and therefore the model's Delta filter object steps exactly like the translated method -/
+theorem translated_filters_delta_filter_is_model (env : Env) (δ : Rat) (last : Val) (d : Data) :
+    ((Filter.delta δ last).call env d).filter = .delta δ (Gen.TrFo.deltaCall δ last d).1 ∧
+    ((Filter.delta δ last).call env d).ret = (Gen.TrFo.deltaCall δ last d).2 ∧
+    ((Filter.delta δ last).call env d).data = d := by
+  rw [translated_filters_delta_call_is_model]; exact ⟨rfl, rfl, rfl⟩
+
+/-- `IfOutput.__call__` (`data if self._ctrl_blk.output else None`) -/
+theorem translated_filters_if_output_is_model (env : Env) (ctrl : String) (d : Data) :
+    Gen.TrFo.ifOutputCall (env ctrl) d = ((Filter.ifOutput ctrl).call env d).ret := rfl
+
+/-- `IfNotIitialized.__call__` (`None if self._ctrl_blk.is_initialized() else data`) with the translated
+    `SBlock.is_initialized` (`self._output is not UNDEF`) -/
+theorem translated_filters_if_not_initialized_is_model (env : Env) (ctrl : String) (d : Data) :
+    Gen.TrFo.ifNotInitCall (Gen.TrFo.isInitialized (env ctrl)) d = ((Filter.ifNotInitialized ctrl).call env d).ret ∧
+    Gen.TrFo.isInitialized (env ctrl) = env.initialized ctrl := ⟨rfl, rfl⟩
+
+/-- the loop of `DataEdit.__call__` (`for func in self._editlist: data = func(data); if not isinstance(data,
+    MutableMapping): break` … `return data`), translated as structural recursion over the edit list, IS the
+    model's `chain`: the first result that is not a mapping (None = REJECT) or the first exception ends it and
+    is what the call returns -/
+theorem translated_filters_dataedit_loop_is_chain (env : Env) (ops : List EditOp) (d : Data) :
+    Gen.TrFo.dataEditCall (c16ApplyEdit env) ops d = Gen.TrFo.editResult (chain env ops d) := by
+  unfold Gen.TrFo.dataEditCall
+  induction ops generalizing d with
+  | nil => rfl
+  | cons op ops ih =>
+    rw [Gen.TrFo.dataEditCall_for1, chain]
+    unfold c16ApplyEdit
+    cases h : op.apply env d with
+    | ok d' => simp only [Gen.TrFo.editResult]; exact ih d'
+    | error s => cases s <;> rfl
+
+/-- `DataEdit.__call__` as translated IS the result of the model's DataEdit filter -/
+theorem translated_filters_dataedit_call_is_model (env : Env) (ops : List EditOp) (d : Data) :
+    Gen.TrFo.dataEditCall (c16ApplyEdit env) ops d = ((Filter.dataEdit ops).call env d).ret := by
+  rw [translated_filters_dataedit_loop_is_chain]
+  exact (c16_dataEditCall_eq env ops d).symm
+
+/-- the edit function called by the loop is, operation by operation, the translated edit function
+    (`Gen.TrF.edit…`, theorems `translated_edit_…_is_model` above): the path `DataEdit.__call__` → edit
+    function is translated code -/
+theorem translated_filters_apply_edit_is_translated (env : Env) (d : Data) :
+    (∀ kw, c16ApplyEdit env (.add kw) d = Gen.TrFo.editResult (Gen.TrF.editAdd d kw)) ∧
+    (∀ kw, c16ApplyEdit env (.setdefault kw) d = Gen.TrFo.editResult (Gen.TrF.editSetdefault d kw)) ∧
+    (∀ k b, c16ApplyEdit env (.addOutput k b) d = Gen.TrFo.editResult (Gen.TrF.editAddOutput d k (env b))) ∧
+    (∀ a b, c16ApplyEdit env (.copy a b) d = Gen.TrFo.editResult (Gen.TrF.editCopy d a b)) ∧
+    (∀ a b, c16ApplyEdit env (.rename a b) d = Gen.TrFo.editResult (Gen.TrF.editRename d a b)) ∧
+    (∀ ks, c16ApplyEdit env (.delete ks) d = Gen.TrFo.editResult (Gen.TrF.editDelete d ks)) ∧
+    (∀ k f, c16ApplyEdit env (.modify k f) d = Gen.TrFo.editResult (Gen.TrF.editModify d k f)) ∧
+    (∀ ks, (d.map (·.1)).Nodup →
+      c16ApplyEdit env (.permit ks) d = Gen.TrFo.editResult (Gen.TrF.editPermit d ks)) := by
+  unfold c16ApplyEdit
+  refine ⟨fun kw => ?_, fun kw => ?_, fun k b => ?_, fun a b => ?_, fun a b => ?_, fun ks => ?_,
+    fun k f => ?_, fun ks h => ?_⟩
+  · rw [translated_edit_add_is_model env]
+  · rw [translated_edit_setdefault_is_model env]
+  · rw [translated_edit_add_output_is_model env]
+  · rw [translated_edit_copy_is_model env]
+  · rw [translated_edit_rename_is_model env]
+  · rw [translated_edit_delete_is_model env]
+  · rw [translated_edit_modify_is_model env]
+  · rw [translated_edit_permit_is_model env ks d h]
+
+/-- the bundled filters never modify the dict in place; those that cannot raise on the data in question
+    are "plain" calls in the sense of the translated loop -/
+theorem translated_filters_bundled_keep_dict (env : Env) (f : Filter) (d : Data)
+    (hf : ∀ g, f ≠ .user g) : (f.call env d).data = d := by
+  cases f with
+  | user g => exact absurd rfl (hf g)
+  | _ => rfl
+
+/-- **the filter loop of `Event.send` as translated from the current source (C11's `Gen.TrD.send_for1`),
+    with its leaves read through THIS model's `Filter.call`, IS the model's `runFrom`** – for filters that
+    return (no exception) and leave the dict alone, which is how the translated loop treats `efilter(data)` -/
+theorem translated_filters_send_loop_is_runFrom (env : Env) (src : String) (fs : List Filter)
+    (hp : ∀ f ∈ fs, PlainFilter env f) (d : Data) (s : List Data) :
+    Gen.TrD.send_for1 (c16SendPrims env src) fs d s = (s, c16LoopOut (runFrom env fs d).2) := by
+  induction fs generalizing d with
+  | nil => rfl
+  | cons f fs ih =>
+    have hf := hp f (by simp)
+    have ih' := fun d => ih (fun g hg => hp g (by simp [hg])) d
+    rw [Gen.TrD.send_for1, runFrom]
+    have happ : (c16SendPrims env src).applyFilter f d = (f.call env d).ret := rfl
+    simp only [happ]
+    cases hr : (f.call env d).ret with
+    | mapping m =>
+      simp only [c16SendPrims, Bool.false_eq_true, if_false, if_true]
+      exact ih' m
+    | other v =>
+      by_cases hv : v.truthy = true
+      · simp only [c16SendPrims, hv, Bool.false_eq_true, if_false, if_true, Bool.not_true]
+        rw [(hf d).1]
+        exact ih' d
+      · have hv' : v.truthy = false := by simpa using hv
+        simp [c16SendPrims, hv', Gen.TrD.M.ret, c16LoopOut]
+    | badKey =>
+      simp [c16SendPrims, Gen.TrD.M.raise, c16LoopOut]
+    | raise e => exact absurd hr ((hf d).2 e)
+
+/-- … and the whole translated `Event.send`: the destination receives the delivered data exactly once and
+    `send` returns True, or nothing and False, as the model's `send` says -/
+theorem translated_filters_send_is_model (env : Env) (src : String) (fs : List Filter)
+    (hp : ∀ f ∈ fs, PlainFilter env f) (d : Data) :
+    Gen.TrD.send (c16SendPrims env src) d fs [] =
+      (match (Filters.send env fs src d).2 with
+       | .delivered d' => ([d'], .ret true)
+       | .rejected => ([], .ret false)
+       | .error e => ([], .raise e)) := by
+  unfold Gen.TrD.send Filters.send
+  have h1 : (c16SendPrims env src).sameCircuit = true := rfl
+  have h2 : (c16SendPrims env src).setSource d = d.set "source" (Val.str src) := rfl
+  simp only [h1, h2, Bool.not_true, Bool.false_eq_true, if_false, Gen.TrD.M.bind,
+    translated_filters_send_loop_is_runFrom env src fs hp]
+  cases (runFrom env fs (d.set "source" (Val.str src))).2 with
+  | delivered d' => simp [c16LoopOut, c16SendPrims, Gen.TrD.M.ret]
+  | rejected => rfl
+  | error e => rfl
+
+/-- non-vacuity: a pipeline of plain filters -/
+example : ∀ f ∈ [Filters.Filter.notFromUndef, .ifOutput "c", .dataEdit [.add [("a", Val.int 1)]]],
+    PlainFilter (fun _ => Val.int 1) f := by
+  intro f hf d
+  simp only [List.mem_cons, List.mem_nil_iff, or_false] at hf
+  rcases hf with h | h | h <;> subst h
+  · exact ⟨rfl, fun e h => by simp [Filters.Filter.call] at h⟩
+  · refine ⟨rfl, fun e h => ?_⟩
+    simp only [Filters.Filter.call] at h
+    split at h <;> cases h
+  · refine ⟨rfl, fun e h => ?_⟩
+    simp [Filters.Filter.call, Filters.dataEditCall, Filters.chain, Filters.EditOp.apply] at h
+
+end FilterObjects
 
 end Edzed.TrTie
